@@ -1152,4 +1152,6 @@ class Compiler:
             logger.info('Optimizing code...')
             code.optimize()
 
+        code.check_limits()
+
         return code
